@@ -240,13 +240,13 @@ func (c *Committer) AfterTxn(w *ledger.World, bc *ledger.BlockCtx, o *ledger.Out
 			}
 		}
 	case fnLock:
-		if p := m.Find(v.Req.ProviderType, v.Req.ProviderID); p != nil && p.Contract == t.ToClientID {
+		if p := m.Target(t.ToClientID, v.Req.ProviderType, v.Req.ProviderID); p != nil {
 			w.Tr.Probe("lock_ok:" + p.Kind.String())
 		} else {
 			w.Tr.Probe("lock_ok:unregistered-target")
 		}
 	case fnUnlock:
-		if p := m.Find(v.Req.ProviderType, v.Req.ProviderID); p != nil && p.Contract == t.ToClientID {
+		if p := m.Target(t.ToClientID, v.Req.ProviderType, v.Req.ProviderID); p != nil {
 			w.Tr.Probe("unlock_ok:" + p.Kind.String())
 		} else {
 			w.Tr.Probe("unlock_ok:unregistered-target")
@@ -254,7 +254,7 @@ func (c *Committer) AfterTxn(w *ledger.World, bc *ledger.BlockCtx, o *ledger.Out
 	case fnCollect:
 		var cr stakepool.CollectRewardRequest
 		_ = json.Unmarshal(t.SmartContractData.InputData, &cr)
-		if p := m.Find(cr.ProviderType, cr.ProviderId); p != nil && p.Contract == t.ToClientID {
+		if p := m.Target(t.ToClientID, cr.ProviderType, cr.ProviderId); p != nil {
 			w.Tr.Probe("collect_ok:" + p.Kind.String())
 			for _, a := range v.Accts {
 				if a.ID == t.ClientID && a.BalDelta().Cmp(new(big.Int).Neg(v.Fee)) > 0 {
